@@ -38,6 +38,10 @@ Check (TyMethodCall : forall E G o m args dobj ty cls dc ms das mi d, Typed E G 
     concrete d = Some (mi_ret mi) -> Typed E G (ECall (EMember o m) args) d).
 Check (TyArray : forall E G es ds c d, es <> [] -> Forall2 (Typed E G) es ds -> spec_array_elem E (map ecsd ds) = Some c -> concrete d = Some (TList c) -> Typed E G (EArray es) d).
 Check (eq_refl : frag {| ce_classes := []; ce_enums := []; ce_objects := []; ce_this := None |} [] (EIdent "Math") = false).
+Check (C05_typed_example_names).
+Check (TyThisProp : forall E G x tc tn pr d, G x = None -> ctx_get_ref E x = Some (RfObjectProperty tc tn pr) -> pi_readable (pr_info pr) = true ->
+    concrete d = Some (pi_type (pr_info pr)) -> Typed E G (EIdent x) d).
+Check (TyEnumVariant : forall E G o name ty e, TypePath E G o ty -> type_get_ref E ty name = Some (RfEnumVariant e) -> Typed E G (EMember o name) (DConcrete (TJust (NEnum e)))).
 Check (C05_typed_example_members).
 Check (TyMember : forall E G o p dobj ty cls dc pi d, Typed E G o dobj -> concrete dobj = Some ty -> class_of_type ty = Some cls -> get_property E cls p = Some (dc, pi) ->
     pi_readable pi = true -> concrete d = Some (pi_type pi) -> Typed E G (EMember o p) d).
